@@ -68,6 +68,7 @@ double hx_stop = 0.0;		/* the loop driver's target time */
 double hx_late = 0.0;		/* extra lateness to add to the next sleep */
 double hx_mono_off = 900000000.0;	/* wall clock minus monotonic clock; grows when the wall clock is stepped */
 int hx_iter_log = 1;
+void (*hx_poll_hook)(void);
 
 int
 clock_gettime(clockid_t id, struct timespec *ts)
@@ -112,7 +113,13 @@ poll(struct pollfd *fds, nfds_t nfds, int timeout)
 /* the event loop's blocking point: report what is ready right now, otherwise let
  * virtual time pass (never beyond the driver's stop time) */
 	struct timespec zero = {0, 0};
-	int r = (int)syscall(SYS_ppoll, fds, nfds, &zero, NULL, 0);
+	int r;
+
+	if (hx_poll_hook != NULL) {
+		/* what happens to the process while it is about to sleep, e.g. SIGCHLD for children that have exited */
+		hx_poll_hook();
+	}
+	r = (int)syscall(SYS_ppoll, fds, nfds, &zero, NULL, 0);
 
 	if (r == 0 && timeout != 0) {
 		/* a real wake-up is never exactly on time: 150 us of latency */
